@@ -29,6 +29,9 @@ SOURCE_FUNCS = [
     (_PL, "PropertyDescriptor"), (_PL, "ufunc_requires_additional_input"), (_PL, "HasPropertyLayers.get_neighborhood_mask"),
     (_DS + "cell.py", "Cell.add_agent"), (_DS + "cell.py", "Cell.remove_agent"), (_DS + "cell.py", "Cell.is_empty"),
     (_DS + "cell_agent.py", "HasCell"), (_DS + "cell_agent.py", "BasicMovement"), (_DS + "grid.py", "Grid.__init__"),
+    (_DS + "grid.py", "Grid._connect_single_cell_2d"), (_DS + "grid.py", "Grid._connect_single_cell_nd"),
+    (_DS + "grid.py", "HexGrid._connect_cells_2d"), (_DS + "cell_agent.py", "CellAgent"),
+    (_PL, "PropertyLayer.aggregate"),
     (_SP, "PropertyLayer"), (_SP, "_PropertyGrid"), (_SP, "ufunc_requires_additional_input"),
     (_SP, "is_single_argument_function"), (_SP, "_Grid.move_agent"), (_SP, "_Grid.is_cell_empty"),
     (_SP, "SingleGrid.place_agent"), (_SP, "SingleGrid.move_agent"), (_SP, "SingleGrid.remove_agent"),
@@ -57,17 +60,20 @@ TRUSTED_BASE = [
 ASSUMPTIONS = [
     "values are bool, int64 without overflow, or dyadic floats (multiples of 1/16, modelled as Z scaled by 16; "
     "float multipliers are integers) so that all arithmetic is exact",
-    "excluded from the generators: dtype-changing operation/dtype pairs (int layer with float value, logical_not on "
-    "int/float layers, arithmetic ufuncs on bool layers, comparisons returning non-bool), conditions that are ufuncs, "
-    "indices with fewer components than the array has axes, masks of a shape other than the grid's",
+    "modify_cells / modify_cell are fed exactly the admissible (layer dtype, form, operation, operand dtype) combinations = "
+    "those whose NumPy result keeps the layer's dtype (C11_dtype_boundary; operand not wider than the layer, no negative "
+    "of bools, python max/min only with an operand of the layer's own dtype because np.vectorize takes its output type "
+    "from the first element); the result dtype of ALL combinations is checked against NumPy by the probe operations; "
+    "values after a dtype change are not modelled; also excluded: conditions that are ufuncs, indices with fewer "
+    "components than the array has axes, masks of a shape other than the grid's",
     "the built-in 'empty' layer is read (conditions, only_empty) but never written or removed by the history itself; "
-    "cell capacities are None, 1 or 2 (the emptiness theorem assumes capacity >= 0); grids are not tori; "
-    "move_relative is issued on Moore / von Neumann grids only (hex connection keys belong to C07)",
+    "cell capacities are None, 1 or 2 (the emptiness theorem assumes capacity >= 0); discrete grids with and without "
+    "torus; move_relative on Moore, von Neumann and hex grids (hex offset tables re-extracted from grid.py)",
     "order of select_cells' list form is row-major (np.where order), compared in order",
-    "get_neighborhood_mask is only called where the neighbourhood is non-empty (finding C11-4: an empty neighbourhood - "
-    "1x1 grid or isolated cell without include_center - raises IndexError in both implementations; patch proposed in "
-    "fixes/C11-4, not applied to /repo); the neighbourhood itself is C07's / C09's subject and is a parameter of "
-    "the translated function",
+    "get_neighborhood_mask: the neighbourhood itself is C07's / C09's subject; the one the grid reports is handed to the "
+    "model as an outcome (legality-checked: inside the grid); legacy hex grids are skipped (finding C11-5: the inherited "
+    "method passes `moore` to _HexGrid.get_neighborhood -> TypeError)",
+    "aggregate: np.sum / np.max / np.min, and np.mean where the number of cells is a power of two (exact division)",
 ]
 E_VALUE, E_KEY, E_INDEX, E_ATTR, E_TYPE, E_EXC = 1, 2, 3, 4, 5, 6
 DT_BOOL, DT_INT, DT_FLOAT = 0, 1, 2
@@ -443,7 +449,7 @@ def gen_cases(rng, tier):
     cases += _probe_cases()
     # the structured agent histories (every rejection, shared and full cells) also go through the model
     for c in enumerate_cases("quick"):
-        if c["ops"] and c["ops"][0][0] == "place":
+        if c["ops"] and (c["ops"][0][0] == "place" or any(o[0] in ("mrel", "nmask") for o in c["ops"])):
             cases.append(c)
     return cases
 
@@ -455,7 +461,7 @@ def enumerate_cases(tier, broken=False):
     import random
 
     rng = random.Random(4242)
-    shapes = {"discrete": [(2, 2), (2, 3), (2, 2, 2)], "legacy": [(2, 2), (2, 3)]}
+    shapes = {"discrete": [(1, 1), (2, 2), (2, 3), (2, 2, 2)], "legacy": [(1, 1), (2, 2), (2, 3)]}
     if tier == "thorough":
         shapes = {"discrete": [(1, 1), (2, 2), (2, 3), (3, 3), (2, 2, 2)], "legacy": [(1, 1), (2, 2), (2, 3), (3, 3)]}
     for impl, shs in shapes.items():
@@ -526,7 +532,19 @@ def enumerate_cases(tier, broken=False):
             nd = len(dims)
             step = [0] * (nd - 1) + [1]
             if impl == "discrete":
-                for cls in ("OrthogonalMooreGrid", "OrthogonalVonNeumannGrid"):
+                sweep = [list(d) for d in itertools.product((-1, 0, 1), repeat=nd)]
+                for cls in ("OrthogonalMooreGrid", "OrthogonalVonNeumannGrid") + (("HexGrid",) if nd == 2 else ()):
+                    for torus in (False, True):
+                        # every direction of {-1,0,1}^n from two cells of different row parity, with and without the torus;
+                        # the neighbourhood mask of every cell (empty neighbourhoods on 1-cell-wide grids), aggregates
+                        ops = [["create", 1, DT_INT, 2], ["place", 1, c0], ["place", 2, c1]]
+                        for d in sweep:
+                            ops += [["mrel", 1, d], ["move", 1, c0], ["mrel", 2, d], ["move", 2, c1]]
+                        for c in coords[:6]:
+                            for ic in (False, True):
+                                ops.append(["nmask", c, ic, 1, True])
+                        ops += [["agg", ["n", 1], k] for k in (0, 1, 2, 3)] + [["agg", ["n", 0], 0], *sel]
+                        yield {"impl": impl, "cls": cls, "dims": list(dims), "cap": 0, "torus": torus, "ops": ops}
                     for cap in (0, 1, 2):
                         ops = [["place", 1, c0], ["place", 2, c0], ["place", 3, c0], *sel, ["place", 4, c1], ["move", 4, c0],
                                ["mrel", 4, [-x for x in step]], ["mrel", 4, [0] * nd], ["mrel", 4, [1] * nd], ["mrel", 1, step],
@@ -535,7 +553,12 @@ def enumerate_cases(tier, broken=False):
                         yield {"impl": impl, "cls": cls, "dims": list(dims), "cap": cap, "ops": ops}
             else:
                 for cls in ("SingleGrid", "MultiGrid", "HexSingleGrid", "HexMultiGrid"):
-                    ops = [["place", 1, c0], ["place", 2, c0], ["place", 3, c1], *sel, ["move", 3, c0], ["move", 1, c0],
+                    if cls.startswith("Hex"):
+                        masks = []
+                    else:
+                        masks = [["nmask", c, ic, r, mo] for c in coords[:4] for ic in (False, True) for r in (1, 2) for mo in (False, True)]
+                    ops = [*masks, ["new", 1, DT_FLOAT, list(dims), 8], ["add", 0], ["agg", ["h", 0], 0], ["agg", ["n", 1], 3],
+                           ["place", 1, c0], ["place", 2, c0], ["place", 3, c1], *sel, ["move", 3, c0], ["move", 1, c0],
                            ["move", 1, c1], *sel, ["rm", 2], ["rm", 1], *sel, ["rm", 3], *sel, ["place", 2, c0], ["move", 2, c0], *sel]
                     yield {"impl": impl, "cls": cls, "dims": list(dims), "cap": 0, "ops": ops}
     # random histories with more selects
